@@ -99,7 +99,10 @@ def r3(ctx):
             if o["k"] == "discr" and o.get("adt") == "std::task::Poll":
                 continue
             at = Slicer(ctx.w).atoms(cb, t["d"])
-            if POLL not in at:
+            # `syn_ack.await` or `(&mut guard.syn_ack).await`: a Future::poll whose receiver is the one-shot of the SYN
+            polled = POLL in at or (any(re.search(r"^call:<&mut \w+ as std::future::Future>::poll$", a) for a in at) and
+                                    any(b2.tys[i]["s"].find("oneshot::Receiver") >= 0 for b2 in [cb] for bb2, t2 in cb.calls(re.compile(r"Future>::poll$")) for i in t2.get("at", ())))
+            if not polled:
                 continue
             edges = [(sbb, x) for x in cb.succ(sbb)]
             for e in edges:
